@@ -28,6 +28,7 @@ import (
 	"os"
 	"os/exec"
 	"path/filepath"
+	"sort"
 	"strconv"
 	"strings"
 	"sync"
@@ -51,15 +52,24 @@ var vsTable = []struct {
 	{"a", 'a', 'a'}, {"q", 'q', 'q'}, {"n", 'n', 'n'}, {"s", 's', 's'}, {"r", 'r', 'r'}, {"f", 'f', 'f'},
 	{"0", '0', '0'}, {"1", '1', '1'}, {"2", '2', '2'}, {"3", '3', '3'}, {"4", '4', '4'}, {"5", '5', '5'},
 	{"6", '6', '6'}, {"7", '7', '7'}, {"8", '8', '8'}, {"9", '9', '9'},
+	// environment entries and the word `export`
+	{"US", 'u', '_'}, {"EQ", '=', '='}, {"e", 'e', 'e'}, {"x", 'x', 'x'}, {"p", 'p', 'p'}, {"o", 'o', 'o'}, {"t", 't', 't'},
+	// NUL: the print separator of --print0 (file contents only); FILE: the byte the harness writes in place of the
+	// path of a temporary file (no item, query or template of this alphabet contains it)
+	{"NUL", 'Z', 0}, {"FILE", 'F', 'F'},
 }
 
+const vsFileByte = "F"
+
 var vsCodeToByte, vsByteToCode [256]byte
+var vsCodeKnown [256]bool
 var vsSymToByte = map[string]byte{}
 var vsByteToSym [256]string
 
 func init() {
 	for _, e := range vsTable {
 		vsCodeToByte[e.code] = e.b
+		vsCodeKnown[e.code] = true
 		vsByteToCode[e.b] = e.code
 		vsSymToByte[e.sym] = e.b
 		vsByteToSym[e.b] = e.sym
@@ -71,11 +81,10 @@ func init() {
 func vsDecode(code string) string {
 	out := make([]byte, len(code))
 	for i := 0; i < len(code); i++ {
-		b := vsCodeToByte[code[i]]
-		if b == 0 {
+		if !vsCodeKnown[code[i]] {
 			panic("unknown code character " + strconv.Quote(code[i:i+1]))
 		}
-		out[i] = b
+		out[i] = vsCodeToByte[code[i]]
 	}
 	return string(out)
 }
@@ -604,6 +613,49 @@ type vsState struct {
 	sel   []int // 1-based positions in selection order
 	query string
 	fp    bool
+	delim Delimiter // --delimiter (zero value: AWK style)
+	sep   string    // print separator ("\n"; "\x00" under --print0)
+}
+
+// wire form of a --delimiter: kind awk / str / cls (a regular expression: one bracket expression over pat)
+type vsDelim struct {
+	Kind string `json:"kind"`
+	Pat  string `json:"pat"`
+}
+
+// vsDelimiter builds the Delimiter the option parser builds (delimiterRegexp) from the --delimiter argument
+func vsDelimArg(kind string, pat string) (string, bool) {
+	switch kind {
+	case "awk":
+		return "", false
+	case "str":
+		return pat, true
+	case "cls":
+		return "[" + pat + "]", true
+	}
+	panic("delimiter kind " + kind)
+}
+
+func vsDelimiter(kind string, pat string) Delimiter {
+	arg, given := vsDelimArg(kind, pat)
+	if !given {
+		return Delimiter{}
+	}
+	d := delimiterRegexp(arg)
+	if (kind == "str") != (d.str != nil) || (kind == "cls") != (d.regex != nil) {
+		panic("--delimiter " + strconv.Quote(arg) + " is not taken as a " + kind + " delimiter")
+	}
+	return d
+}
+
+func vsSep(name string) string {
+	switch name {
+	case "", "LF":
+		return "\n"
+	case "NUL":
+		return "\x00"
+	}
+	panic("separator " + name)
 }
 
 // vsTerminal builds just enough of a Terminal for buildPlusList / replacePlaceholder: the list (merger + cursor) and
@@ -613,7 +665,8 @@ func vsTerminal(st vsState, executor *util.Executor) *Terminal {
 		selected:     map[int32]selectedItem{},
 		multi:        1 << 20,
 		executor:     executor,
-		printsep:     "\n",
+		printsep:     st.sep,
+		delimiter:    st.delim,
 		promptString: "> ",
 		lastAction:   actStart,
 	}
@@ -656,16 +709,35 @@ func vsItem(text string, idx int) *Item {
 	return it
 }
 
-// what executeCommand does before it hands the command to the shell
-func vsExpand(st vsState, template string, executor *util.Executor) (bool, string) {
+// what executeCommand does before it hands the command to the shell.  The temporary files of the expansion are read
+// at the point where executeCommand would start the command (before removeFiles); in the command line the path of
+// each file is replaced, in order, by the one byte that stands for "a temporary file" (FILE).
+func vsExpand(st vsState, template string, executor *util.Executor) (bool, string, []string) {
+	if st.sep == "" {
+		st.sep = "\n"
+	}
 	t := vsTerminal(st, executor)
 	valid, list := t.buildPlusList(template, st.fp)
 	if !valid {
-		return false, ""
+		return false, "", []string{}
 	}
 	cmd, files := t.replacePlaceholder(template, st.fp, st.query, list)
+	contents := make([]string, len(files))
+	from := 0
+	for k, f := range files {
+		data, err := os.ReadFile(f)
+		if err != nil || f == "" {
+			contents[k] = "!ERR-temporary-file-not-readable"
+		} else {
+			contents[k] = string(data)
+		}
+		if i := strings.Index(cmd[from:], f); f != "" && i >= 0 {
+			cmd = cmd[:from+i] + vsFileByte + cmd[from+i+len(f):]
+			from += i + len(vsFileByte)
+		}
+	}
 	removeFiles(files)
-	return true, cmd
+	return true, cmd, contents
 }
 
 // ---------------------------------------------------------------- E: expansion
@@ -683,10 +755,13 @@ func TestVerifShellExpand(t *testing.T) {
 		Q   string   `json:"q"`
 		Fp  bool     `json:"fp"`
 		Ws  string   `json:"ws"`
+		D   vsDelim  `json:"d"`
+		Sep string   `json:"sep"`
 	}
 	type egot struct {
 		valid bool
 		x, xf string
+		fs    []string
 	}
 	var gots []egot
 	var lines []string
@@ -696,14 +771,19 @@ func TestVerifShellExpand(t *testing.T) {
 		if err := json.Unmarshal(line, &c); err != nil {
 			return err
 		}
-		st := vsState{cur: c.Cur, sel: c.Sel, query: vsDecode(c.Q), fp: c.Fp}
+		kind := c.D.Kind
+		if kind == "" {
+			kind = "awk"
+		}
+		st := vsState{cur: c.Cur, sel: c.Sel, query: vsDecode(c.Q), fp: c.Fp, delim: vsDelimiter(kind, vsDecode(c.D.Pat)),
+			sep: vsSep(c.Sep)}
 		for i, s := range c.Its {
 			st.items = append(st.items, vsItem(vsDecode(s), c.Ix[i]))
 		}
 		tmpl := vsDecode(c.T)
-		valid, x := vsExpand(st, tmpl, posix)
-		_, xf := vsExpand(st, tmpl, fish)
-		gots = append(gots, egot{valid, x, xf})
+		valid, x, fs := vsExpand(st, tmpl, posix)
+		_, xf, _ := vsExpand(st, tmpl, fish)
+		gots = append(gots, egot{valid, x, xf, vsEncodeAll(fs)})
 		lines = append(lines, x)
 		// the driver only hands a command line to the shells if the specification calls it inert (ws = OK)
 		skip = append(skip, c.Ws != "OK" || !valid)
@@ -716,7 +796,7 @@ func TestVerifShellExpand(t *testing.T) {
 			shv = sh[i]
 		}
 		out.Put(map[string]interface{}{"id": i, "got": map[string]interface{}{
-			"valid": g.valid, "x": vsEncode(g.x), "xf": vsEncode(g.xf), "sh": shv}})
+			"valid": g.valid, "x": vsEncode(g.x), "xf": vsEncode(g.xf), "fs": g.fs, "sh": shv}})
 	}
 }
 
@@ -731,6 +811,11 @@ type vsRecIn struct {
 	Q     []string   `json:"q"`
 	Fp    bool       `json:"fp"`
 	Cells []int      `json:"cells"` // cells of the matrix (ids) this input is also expanded / run under
+	D     struct {
+		Kind string   `json:"kind"`
+		Pat  []string `json:"pat"`
+	} `json:"d"` // --delimiter
+	Sep string `json:"sep"` // print separator: LF / NUL
 }
 
 // wire form of a cell for the judge: a path is the list of its elements, --with-shell the list of its words
@@ -802,16 +887,23 @@ func TestVerifShellRecord(t *testing.T) {
 			defer wg.Done()
 			defer func() { <-sem }()
 			c := ins[i]
-			st := vsState{cur: c.Cur, sel: c.Sel, query: vsFromSyms(c.Q), fp: c.Fp}
+			if c.D.Kind == "" {
+				c.D.Kind, c.D.Pat = "awk", []string{}
+			}
+			if c.Sep == "" {
+				c.Sep = "LF"
+			}
+			st := vsState{cur: c.Cur, sel: c.Sel, query: vsFromSyms(c.Q), fp: c.Fp,
+				delim: vsDelimiter(c.D.Kind, vsFromSyms(c.D.Pat)), sep: vsSep(c.Sep)}
 			for k, s := range c.Items {
 				st.items = append(st.items, vsItem(vsFromSyms(s), c.Ix[k]))
 			}
 			tmpl := vsFromSyms(c.T)
-			valid, x := vsExpand(st, tmpl, execs[0])
+			valid, x, fs := vsExpand(st, tmpl, execs[0])
 			argv := map[string]interface{}{}
 			if valid {
 				for k, sh := range shells {
-					_, xk := vsExpand(st, tmpl, execs[k])
+					_, xk, _ := vsExpand(st, tmpl, execs[k])
 					if xk != x {
 						argv[sh.Name] = [][]string{{"!ERR-executors-differ"}}
 						continue
@@ -826,7 +918,7 @@ func TestVerifShellRecord(t *testing.T) {
 				for _, id := range c.Cells {
 					ce := cells[id]
 					shell, ws := vsCellWire(ce.cell)
-					_, xc := vsExpand(st, tmpl, ce.x)
+					_, xc, _ := vsExpand(st, tmpl, ce.x)
 					run := map[string]interface{}{"set": ce.cell.Set, "shell": shell, "ws": ws, "x": vsToSyms(xc),
 						"ran": false, "argv": [][]string{}}
 					if ce.cell.Ev == "posix" {
@@ -837,7 +929,8 @@ func TestVerifShellRecord(t *testing.T) {
 				}
 			}
 			recs[i] = map[string]interface{}{"kind": "expand", "t": c.T, "items": c.Items, "ix": c.Ix, "cur": c.Cur,
-				"sel": c.Sel, "q": c.Q, "fp": c.Fp, "valid": valid, "x": vsToSyms(x), "argv": argv, "runs": runs,
+				"sel": c.Sel, "q": c.Q, "fp": c.Fp, "d": map[string]interface{}{"kind": c.D.Kind, "pat": c.D.Pat}, "sep": c.Sep,
+				"valid": valid, "x": vsToSyms(x), "fs": vsAllToSyms(fs), "argv": argv, "runs": runs,
 				"cells": append([]int{}, c.Cells...)}
 		}(i)
 	}
@@ -847,7 +940,7 @@ func TestVerifShellRecord(t *testing.T) {
 	}
 }
 
-// ---------------------------------------------------------------- J: --tmux re-launch through the real binary
+// ---------------------------------------------------------------- --tmux re-launch through the real binary (E and J)
 
 // Stand-in for the re-launched fzf: when VERIF_C12_DUMP is set this binary only records how it was called.
 func vsDumpIfAsked() {
@@ -855,12 +948,9 @@ func vsDumpIfAsked() {
 	if path == "" {
 		return
 	}
-	env := map[string][]string{}
+	env := [][]string{}
 	for _, kv := range os.Environ() {
-		if strings.HasPrefix(kv, "VERIF_E") {
-			p := strings.SplitN(kv, "=", 2)
-			env[p[0]] = vsToSyms(p[1])
-		}
+		env = append(env, vsToSyms(kv))
 	}
 	argv := make([][]string, len(os.Args))
 	for i, a := range os.Args {
@@ -876,12 +966,25 @@ func vsDumpIfAsked() {
 type vsTmuxIn struct {
 	Name []string   `json:"name"` // directory name the stand-in child lives in
 	Args [][]string `json:"args"` // arguments after argv[0]
-	Envs [][]string `json:"envs"` // values of VERIF_E1..n
+	Ents [][]string `json:"ents"` // environment entries fzf is started with: any text, with or without "="
 }
 
-func TestVerifShellTmux(t *testing.T) {
-	out := verifOpenOut(t)
-	defer out.Close()
+// names the harness itself (or the shell that runs the script) puts into the environment of the re-launched process
+var vsTmuxBaseline = map[string]bool{"PATH": true, "TMUX": true, "TMPDIR": true, "HOME": true, "VERIF_C12_DUMP": true,
+	"VERIF_S0": true, "VERIF_S1": true, "PWD": true, "OLDPWD": true, "SHLVL": true, "_": true,
+	"FZF_DEFAULT_COMMAND": true, "FZF_DEFAULT_OPTS": true, "FZF_DEFAULT_OPTS_FILE": true}
+
+const vsSentinel0 = "export VERIF_S0='1'\n"
+const vsSentinel1 = "export VERIF_S1='1'\n"
+
+type vsTmuxRig struct {
+	fzf, self, base, bin string
+}
+
+// The rig: a stand-in `tmux` that keeps a copy of the script it is given and runs `sh SCRIPT` the way a popup does -
+// from an environment that has none of the caller's entries (a popup starts from the tmux server's environment; the
+// script has to bring everything along) - and a stand-in command `a`, first in $PATH, that records being run.
+func vsNewTmuxRig(t *testing.T) vsTmuxRig {
 	fzf := os.Getenv("VERIF_FZF")
 	self, err := os.Executable()
 	if fzf == "" || err != nil {
@@ -890,21 +993,137 @@ func TestVerifShellTmux(t *testing.T) {
 	base := t.TempDir()
 	bin := filepath.Join(base, "bin")
 	os.Mkdir(bin, 0700)
-	// stand-in tmux: `tmux display-popup ... sh SCRIPT` runs `sh SCRIPT`, without the variables the script must
-	// bring along itself (a real popup starts from the tmux server's environment)
-	tm := "#!/bin/sh\nshift $(($# - 2))\nexec /usr/bin/env -u VERIF_E1 -u VERIF_E2 -u VERIF_E3 -u VERIF_E4 \"$@\"\n"
+	tm := "#!/bin/sh\nshift $(($# - 2))\ncp \"$2\" \"$VERIF_C12_DUMP.script\"\n" +
+		"exec /usr/bin/env -i PATH=\"$PATH\" VERIF_C12_DUMP=\"$VERIF_C12_DUMP\" \"$@\"\n"
 	if err := os.WriteFile(filepath.Join(bin, "tmux"), []byte(tm), 0700); err != nil {
 		t.Fatal(err)
 	}
-	var ins []vsTmuxIn
-	verifReadCases(t, func(line []byte) error {
-		var c vsTmuxIn
-		if err := json.Unmarshal(line, &c); err != nil {
-			return err
+	a := "#!/bin/sh\nprintf '%s\\n' \"$*\" >> \"$VERIF_C12_DUMP.ran\"\n"
+	if err := os.WriteFile(filepath.Join(bin, "a"), []byte(a), 0700); err != nil {
+		t.Fatal(err)
+	}
+	return vsTmuxRig{fzf, self, base, bin}
+}
+
+// one `fzf --tmux` run of the real binary
+func (rig vsTmuxRig) run(i int, c vsTmuxIn) map[string]interface{} {
+	work := filepath.Join(rig.base, strconv.Itoa(i))
+	tmp := filepath.Join(work, "tmp")
+	ddir := filepath.Join(work, vsFromSyms(c.Name))
+	if err := os.MkdirAll(tmp, 0700); err != nil {
+		panic(err)
+	}
+	if err := os.MkdirAll(ddir, 0700); err != nil {
+		panic(err)
+	}
+	child := filepath.Join(ddir, "dump")
+	if err := os.Symlink(rig.self, child); err != nil {
+		panic(err)
+	}
+	dump := filepath.Join(work, "dump.json")
+	args := []string{child}
+	for _, a := range c.Args {
+		args = append(args, vsFromSyms(a))
+	}
+	cmd := exec.Command(rig.fzf)
+	cmd.Args = args // argv[0] is what fzf re-launches
+	cmd.Dir = work
+	cmd.Env = []string{"PATH=" + rig.bin + ":/usr/bin:/bin", "TMUX=/tmp/verif,1,0", "TMUX_PANE=%1", "TMPDIR=" + tmp,
+		"HOME=" + work, "VERIF_C12_DUMP=" + dump, "VERIF_S0=1"}
+	ents := make([]string, len(c.Ents))
+	for k, e := range c.Ents {
+		ents[k] = vsFromSyms(e)
+		cmd.Env = append(cmd.Env, ents[k])
+	}
+	cmd.Env = append(cmd.Env, "VERIF_S1=1")
+	var stderr bytes.Buffer
+	cmd.Stderr = &stderr
+	done := make(chan error, 1)
+	if err := cmd.Start(); err != nil {
+		panic(err)
+	}
+	go func() { done <- cmd.Wait() }()
+	var runErr error
+	select {
+	case runErr = <-done:
+	case <-time.After(60 * time.Second):
+		cmd.Process.Kill()
+		<-done
+		runErr = fmt.Errorf("timeout")
+	}
+	rec := map[string]interface{}{"kind": "tmux", "argv0": vsToSyms(child), "args": c.Args, "ents": c.Ents,
+		"seen": [][]string{}, "seenenv": [][]string{}, "script": []string{"!NOSCRIPT"}, "ran": [][]string{}, "err": ""}
+	// the part of the script between the exports of the two sentinels
+	if data, err := os.ReadFile(dump + ".script"); err == nil {
+		sc := string(data)
+		rec["script"] = []string{"!NOSEGMENT"}
+		if b := strings.Index(sc, vsSentinel0); b >= 0 {
+			rest := sc[b+len(vsSentinel0):]
+			if e := strings.Index(rest, vsSentinel1); e >= 0 {
+				rec["script"] = vsToSyms(rest[:e])
+			}
 		}
-		ins = append(ins, c)
-		return nil
-	})
+	}
+	if data, err := os.ReadFile(dump + ".ran"); err == nil {
+		lines := strings.Split(strings.TrimSuffix(string(data), "\n"), "\n")
+		rec["ran"] = vsAllToSyms(lines)
+	}
+	errs := []string{}
+	if runErr != nil {
+		errs = append(errs, fmt.Sprintf("fzf --tmux: %v", runErr))
+	}
+	if stderr.Len() > 0 {
+		e := stderr.String()
+		if len(e) > 300 {
+			e = e[:300]
+		}
+		errs = append(errs, fmt.Sprintf("stderr=%q", e))
+	}
+	data, err := os.ReadFile(dump)
+	if err != nil {
+		errs = append(errs, "fzf was not re-launched")
+	} else {
+		var d struct {
+			Argv [][]string `json:"argv"`
+			Env  [][]string `json:"env"`
+		}
+		if err := json.Unmarshal(data, &d); err != nil {
+			panic(err)
+		}
+		rec["seen"] = d.Argv
+		// the entries that arrived verbatim, in the order they were given; then anything else that is not the rig's own
+		have := map[string]bool{}
+		for _, e := range d.Env {
+			have[vsFromSyms(e)] = true
+		}
+		given := map[string]bool{}
+		se := [][]string{}
+		for k, e := range ents {
+			given[e] = true
+			if have[e] {
+				se = append(se, c.Ents[k])
+			}
+		}
+		extra := []string{}
+		for e := range have {
+			name := strings.SplitN(e, "=", 2)[0]
+			if !given[e] && !vsTmuxBaseline[name] {
+				extra = append(extra, e)
+			}
+		}
+		sort.Strings(extra)
+		for _, e := range extra {
+			se = append(se, vsToSyms(e))
+		}
+		rec["seenenv"] = se
+	}
+	rec["err"] = strings.Join(errs, "; ")
+	os.RemoveAll(work)
+	return rec
+}
+
+func vsTmuxRunAll(t *testing.T, ins []vsTmuxIn) []map[string]interface{} {
+	rig := vsNewTmuxRig(t)
 	recs := make([]map[string]interface{}, len(ins))
 	var wg sync.WaitGroup
 	sem := make(chan struct{}, vsPar())
@@ -914,77 +1133,64 @@ func TestVerifShellTmux(t *testing.T) {
 		go func(i int) {
 			defer wg.Done()
 			defer func() { <-sem }()
-			c := ins[i]
-			work := filepath.Join(base, strconv.Itoa(i))
-			tmp := filepath.Join(work, "tmp")
-			ddir := filepath.Join(work, vsFromSyms(c.Name))
-			if err := os.MkdirAll(tmp, 0700); err != nil {
-				panic(err)
-			}
-			if err := os.MkdirAll(ddir, 0700); err != nil {
-				panic(err)
-			}
-			child := filepath.Join(ddir, "dump")
-			if err := os.Symlink(self, child); err != nil {
-				panic(err)
-			}
-			dump := filepath.Join(work, "dump.json")
-			args := []string{child}
-			for _, a := range c.Args {
-				args = append(args, vsFromSyms(a))
-			}
-			cmd := exec.Command(fzf)
-			cmd.Args = args // argv[0] is what fzf re-launches
-			cmd.Dir = work
-			cmd.Env = []string{"PATH=" + bin + ":/usr/bin:/bin", "TMUX=/tmp/verif,1,0", "TMUX_PANE=%1", "TMPDIR=" + tmp,
-				"HOME=" + work, "VERIF_C12_DUMP=" + dump}
-			for k, v := range c.Envs {
-				cmd.Env = append(cmd.Env, fmt.Sprintf("VERIF_E%d=%s", k+1, vsFromSyms(v)))
-			}
-			var stderr bytes.Buffer
-			cmd.Stderr = &stderr
-			done := make(chan error, 1)
-			if err := cmd.Start(); err != nil {
-				panic(err)
-			}
-			go func() { done <- cmd.Wait() }()
-			var runErr error
-			select {
-			case runErr = <-done:
-			case <-time.After(60 * time.Second):
-				cmd.Process.Kill()
-				<-done
-				runErr = fmt.Errorf("timeout")
-			}
-			rec := map[string]interface{}{"kind": "tmux", "argv0": vsToSyms(child), "args": c.Args, "envs": c.Envs,
-				"seen": [][]string{}, "seenenv": [][]string{}, "err": ""}
-			data, err := os.ReadFile(dump)
-			if err != nil {
-				rec["err"] = fmt.Sprintf("child not started as expected: run=%v stderr=%q", runErr, stderr.String())
-			} else {
-				var d struct {
-					Argv [][]string            `json:"argv"`
-					Env  map[string][]string `json:"env"`
-				}
-				if err := json.Unmarshal(data, &d); err != nil {
-					panic(err)
-				}
-				rec["seen"] = d.Argv
-				se := make([][]string, len(c.Envs))
-				for k := range c.Envs {
-					se[k] = []string{"!MISSING"}
-					if v, ok := d.Env[fmt.Sprintf("VERIF_E%d", k+1)]; ok {
-						se[k] = v
-					}
-				}
-				rec["seenenv"] = se
-			}
-			os.RemoveAll(work)
-			recs[i] = rec
+			recs[i] = rig.run(i, ins[i])
 		}(i)
 	}
 	wg.Wait()
-	for _, r := range recs {
+	return recs
+}
+
+// J: random arguments and environments; one record per run for Judge_Shell
+func TestVerifShellTmux(t *testing.T) {
+	out := verifOpenOut(t)
+	defer out.Close()
+	var ins []vsTmuxIn
+	verifReadCases(t, func(line []byte) error {
+		var c vsTmuxIn
+		if err := json.Unmarshal(line, &c); err != nil {
+			return err
+		}
+		ins = append(ins, c)
+		return nil
+	})
+	for _, r := range vsTmuxRunAll(t, ins) {
 		out.Put(r)
+	}
+}
+
+// E: one environment entry from MC_ShellEnv per run of the real binary: the export part of the script fzf wrote, the
+// entries the re-launched process received from the real sh, whether anything else ran
+func TestVerifShellEnv(t *testing.T) {
+	out := verifOpenOut(t)
+	defer out.Close()
+	type ecase struct {
+		Ent string `json:"ent"`
+	}
+	var ins []vsTmuxIn
+	verifReadCases(t, func(line []byte) error {
+		var c ecase
+		if err := json.Unmarshal(line, &c); err != nil {
+			return err
+		}
+		ins = append(ins, vsTmuxIn{Name: []string{"a"}, Args: [][]string{{"--tmux"}}, Ents: [][]string{vsToSyms(vsDecode(c.Ent))}})
+		return nil
+	})
+	for i, r := range vsTmuxRunAll(t, ins) {
+		script := "!NOSCRIPT"
+		if sy, ok := r["script"].([]string); ok && (len(sy) == 0 || sy[0][0] != '!') {
+			script = vsEncode(vsFromSyms(sy))
+		} else if ok {
+			script = sy[0]
+		}
+		vars := []string{}
+		for _, e := range r["seenenv"].([][]string) {
+			vars = append(vars, vsEncode(vsFromSyms(e)))
+		}
+		ran := []string{}
+		for _, e := range r["ran"].([][]string) {
+			ran = append(ran, vsEncode(vsFromSyms(e)))
+		}
+		out.Put(map[string]interface{}{"id": i, "got": map[string]interface{}{"script": script, "vars": vars, "ran": ran,
+			"err": r["err"]}})
 	}
 }
